@@ -784,26 +784,23 @@ theorem inv_colmSet {s : Screen} (h : Inv s) : Inv (colmSet s) := by
       subst e
       decide)) _) _ _
 
+theorem inv_colmRestore {s : Screen} (h : Inv s) : Inv (colmRestore s) := by
+  unfold colmRestore
+  split
+  · split
+    · rename_i sc hsc
+      have hr := inv_resize h none (some sc) (by intro v e; cases e) (by
+        intro v e
+        simp only [Option.some.injEq] at e
+        subst e
+        exact h.saved _ hsc)
+      exact { hr with saved := by intro c e; simp at e }
+    · exact h
+  · exact h
+
 theorem inv_colmReset {s : Screen} (h : Inv s) : Inv (colmReset s) := by
   unfold colmReset
-  simp only
-  have h1 : Inv (if (s.columns == 132) = true then
-      match s.savedColumns with
-      | some sc => { resize s none (some sc) with savedColumns := none }
-      | none => s
-    else s) := by
-    split
-    · split
-      · rename_i sc hsc
-        have hr := inv_resize h none (some sc) (by intro v e; cases e) (by
-          intro v e
-          simp only [Option.some.injEq] at e
-          subst e
-          exact h.saved _ hsc)
-        exact { hr with saved := by intro c e; simp at e }
-      · exact h
-    · exact h
-  exact inv_cursorPosition (inv_eraseInDisplay h1 _) _ _
+  exact inv_cursorPosition (inv_eraseInDisplay (inv_colmRestore h) _) _ _
 
 theorem inv_setMode {s : Screen} (h : Inv s) (ms : List Nat) (p : Bool) : Inv (setMode s ms p) := by
   unfold setMode
